@@ -162,6 +162,9 @@ Q = {'_budget': 900}
 HARNESSES = [
     Harness('scenario', scenario,
             quick=[dict(Q, free=['lua', 'gfx']), dict(Q, free=['map', 'sfx']),
-                   dict(Q, free=['gff', 'music', 'lua'])],
+                   dict(Q, free=['gff', 'music', 'lua']),
+                   dict(Q, free=['gfx', 'music'], fixed='p8'),
+                   dict(Q, free=['lua', 'gff'], fixed='empty'),
+                   dict(Q, free=['map'], fixed='png')],
             thorough=[dict(Q, free=list(SECTIONS), _budget=3000)]),
 ]
